@@ -17,7 +17,7 @@ import (
 
 func init() {
 	oracles["C16"] = &oracle{
-		rule:  "v: random programs biased towards nesting (blocks, function declarations, function expressions as values, in call arguments, object/array literals, conditions, IIFEs; depth up to 5) rendered by the reference unparser in all layouts x 4 modes, probes si:q1 ei:q2 or selective probes only (asking at some of let/return/function), every event checked against the renderer's own nesting record of the current token; m: parse corpus, generated programs, token/byte mutations, fragment soup x 4 modes x with/without interceptors: context back at top level after parsing; non-trivial = at least one event below top level (v) / at least one '{' or 'function' in the input (m); distinct by (input, set of expected contexts x probe kinds, depth)",
+		rule:  "v: random programs biased towards nesting (blocks, function declarations, function expressions as values, in call arguments, object/array literals, conditions, IIFEs; depth up to 5) rendered by the reference unparser in all layouts x 4 modes, one case in eleven a deep nest of 15..70 levels (blocks in a function, nested function declarations / expressions, a function in the innermost block), probes si:q1 ei:q2 or selective probes only (asking at some of let/return/function), every event checked against the renderer's own nesting record of the current token; m: parse corpus, generated programs, token/byte mutations, fragment soup x 4 modes x with/without interceptors: context back at top level after parsing; non-trivial = at least one event below top level (v) / at least one '{' or 'function' in the input (m); distinct by (input, set of expected contexts x probe kinds, depth)",
 		gen:   genC16,
 		check: countFailures(checkC16),
 	}
@@ -178,14 +178,51 @@ func (n *nestGen) stmt(d int) *shape {
 	return sh("es", "", n.expr(d))
 }
 
+// deepNest builds n levels, each with a statement before and after the nested construct, so
+// that questions are asked on the way into and out of the nest.
+//   form 0: blocks inside one function declaration     form 1: nested function declarations
+//   form 2: nested function expressions as let values  form 3: blocks, a function in the innermost
+func deepNest(r *rng, form, n int) *shape {
+	id := func() *shape { return sh("es", "", sh("id", pick(r, identPool))) }
+	var inner *shape
+	switch form {
+	case 3:
+		inner = sh("fd", "f", sh("params", ""), sh("blk", "", id(), sh("ret", "", sh("id", "a"))))
+	default:
+		inner = sh("blk", "", id())
+	}
+	for i := 0; i < n; i++ {
+		var level *shape
+		switch form {
+		case 1:
+			level = sh("fd", pick(r, identPool), sh("params", ""), sh("blk", "", id(), inner, id()))
+		case 2:
+			level = sh("let", pick(r, identPool), sh("fn", "", sh("params", ""), sh("blk", "", id(), inner, id())))
+		default:
+			level = sh("blk", "", id(), inner, id())
+		}
+		inner = level
+	}
+	if form == 0 {
+		return sh("fd", "f", sh("params", ""), sh("blk", "", id(), inner, id()))
+	}
+	return inner
+}
+
 // c16Case regenerates the program of a seed: statements, text, rendered tokens, mode.
 func c16Case(seed uint64) (stmts []*shape, txt string, toks []rtok, mode string) {
 	r := newRng(seed, "c16case")
 	ng := &nestGen{r: r, g: &shapeGen{r: r}}
-	k := 1 + r.intn(3)
-	d := 2 + r.intn(4)
-	for i := 0; i < k; i++ {
-		stmts = append(stmts, ng.stmt(d))
+	if seed%11 == 7 {
+		// a deep nest (30..140 context levels; a function body counts two): the context
+		// stack is unbounded, whatever its representation
+		stmts = append(stmts, sh("es", "", ng.leaf()), deepNest(r, int(seed>>4)%4, 15+r.intn(56)), sh("es", "", ng.leaf()))
+	} else {
+		k := 1 + r.intn(3)
+		d := 2 + r.intn(4)
+		for i := 0; i < k; i++ {
+			stmts = append(stmts, ng.stmt(d))
+		}
 	}
 	red := 0
 	if r.chance(1, 4) {
